@@ -127,4 +127,3 @@ func neg3(x string) string {
 	}
 	return x
 }
-
